@@ -144,6 +144,7 @@ inline bool DecoderRSM3<T_PointCloud>::decodeMsopPkt(const uint8_t* packet, size
   bool ret = false;
 
   this->temperature_ = static_cast<float>((int)pkt.header.temperature - this->const_param_.TEMPERATURE_RES);
+  this->is_get_temperature_ = true;
 
   double pkt_ts = 0;
   if (this->param_.use_lidar_clock)
